@@ -33,6 +33,38 @@ func runC11(p *core.Prog, r *core.Report) {
 	c11R6(p, r)
 	c11R7(p, r)
 	c11R8(p, r)
+	c11R9(p, r)
+}
+
+// c11R9: whether a registry is spoken to without TLS is the user's decision. Outside the package that
+// parses the configuration no code writes the constant "TLS disabled" into a host entry (a fall-back
+// that downgrades after a failed handshake sends the login in clear text to whoever answered).
+func c11R9(p *core.Prog, r *core.Report) {
+	const rule = "C11.R9"
+	r.Rule(rule, "no downgrade in code: the constant config.TLSDisabled is stored into the TLS field of a config.Host only inside package config (where a configuration is parsed); everywhere else the field is set from a value the user supplied", 1)
+	disabled := tlsDisabledValue(p.SSA)
+	in, n := 0, 0
+	lab := map[*ssa.Function]labeler{}
+	for _, fs := range fieldStores(p.ModFuncs, func(nm *types.Named, f string) bool {
+		return f == "TLS" && nm.Obj().Name() == "Host" && nm.Obj().Pkg() != nil && nm.Obj().Pkg().Path() == modPath("config")
+	}) {
+		k, isConst := core.ConstInt(fs.Store.Val)
+		if !isConst || k != disabled {
+			continue
+		}
+		if pk := core.FuncPkg(fs.Fn); pk != nil && pk.Path() == modPath("config") {
+			in++
+			continue
+		}
+		n++
+		if lab[fs.Fn] == nil {
+			lab[fs.Fn] = labeler{}
+		}
+		r.Violated(rule, p.FuncName(fs.Fn), lab[fs.Fn].next("TLS disabled by code"), p.Pos(fs.Store.Pos()), "a host entry is switched to plain http by the program itself: the next request sends the host's credentials unencrypted, to a peer that was configured to be reached over TLS")
+	}
+	if n == 0 {
+		r.Held(rule, "module", "TLS never disabled outside the configuration parser", "-", fmt.Sprintf("%d constant store(s), all in package config", in))
+	}
 }
 
 func isAuthorizationKey(v ssa.Value) bool {
